@@ -29,10 +29,11 @@ import (
 
 // hostileCase is one byte stream delivered at a session stage.
 type hostileCase struct {
-	Stage        int  // 0 connected, 2 verification pending, 3 ready
-	TxManager    bool // node has a transaction manager (tx/inv handlers installed when ready)
-	RequestBlock bool // a block was requested from the peer before the bytes are sent
-	Chunks       [][]byte
+	Stage         int  // 0 connected, 2 verification pending, 3 ready
+	TxManager     bool // node has a transaction manager (tx/inv handlers installed when ready)
+	RequestBlock  bool // a block was requested from the peer before the bytes are sent
+	HeaderHandler bool // the application installed its own header handler (SetHeaderHandler)
+	Chunks        [][]byte
 }
 
 func (c hostileCase) bytes() int {
@@ -53,6 +54,9 @@ func (c hostileCase) encode() []byte {
 	if c.RequestBlock {
 		flags |= 2
 	}
+	if c.HeaderHandler {
+		flags |= 4
+	}
 	buf.WriteByte(flags)
 	for _, ch := range c.Chunks {
 		binary.Write(&buf, binary.LittleEndian, uint32(len(ch)))
@@ -62,7 +66,7 @@ func (c hostileCase) encode() []byte {
 }
 
 func decodeCase(b []byte) hostileCase {
-	c := hostileCase{Stage: int(b[0]), TxManager: b[1]&1 != 0, RequestBlock: b[1]&2 != 0}
+	c := hostileCase{Stage: int(b[0]), TxManager: b[1]&1 != 0, RequestBlock: b[1]&2 != 0, HeaderHandler: b[1]&4 != 0}
 	b = b[2:]
 	for len(b) >= 4 {
 		n := binary.LittleEndian.Uint32(b)
@@ -112,7 +116,7 @@ func runHostile(t failer, c hostileCase) hostileResult {
 	var ms runtime.MemStats
 	runtime.ReadMemStats(&ms)
 	sysBefore := ms.Sys
-	s := Start(t, Opts{TxManager: txm, Headers: hdrs, Peers: book})
+	s := Start(t, Opts{TxManager: txm, Headers: hdrs, Peers: book, HeaderHandler: c.HeaderHandler})
 	switch c.Stage {
 	case 2:
 		s.Handshake(t)
@@ -377,6 +381,7 @@ func genHostile(t *rapid.T, allowKnown bool) (hostileCase, []string) {
 	if c.Stage == 3 {
 		c.RequestBlock = rapid.Bool().Draw(t, "requestBlock")
 	}
+	c.HeaderHandler = rapid.Bool().Draw(t, "headerHandler")
 	n := rapid.IntRange(1, 6).Draw(t, "chunks")
 	var classes []string
 	for i := 0; i < n; i++ {
@@ -387,7 +392,7 @@ func genHostile(t *rapid.T, allowKnown bool) (hostileCase, []string) {
 	return c, classes
 }
 
-const ruleC15 = "byte streams of 1..6 chunks delivered at a drawn stage (S0 before handshake / S2 verification pending / S3 ready; TxManager on/off; block requested or not) to a real BitcoinNode over loopback TCP: random bytes, valid frames, corrupt checksum, altered length (+1,-1,x2,0,2^31-1,2^32-2), truncation, oversize declared length for every known command with little data, extended headers with lengths 0..2^64-1, headers/inv/addr with counts up to 2^64-1, header bits/timestamp extremes, hostile version/protoconf, wrong magic, non-UTF8 command, hostile tx/block encodings; every case is journalled to disk BEFORE it runs so that a dead process names its killer; oracle: the test process stays alive (a panic in any node goroutine kills it => violation with the journalled bytes as replay), Run returns within 10 s after the peer closes WITHOUT an interrupt, runtime.MemStats.Sys grows by <= 64 MiB + 4 x bytes actually sent (a length field may not size a reservation), the header repository (difficulty checks on: nothing generated is acceptable) is unchanged, and a well-behaved bystander session sharing the repositories verifies and gets its pong; recorded known findings are excluded by construction and counted; non-trivial = stage S2/S3 with an oversize/extended/hostile-count chunk; distinct = (stage, flags, chunk class list)"
+const ruleC15 = "byte streams of 1..6 chunks delivered at a drawn stage (S0 before handshake / S2 verification pending / S3 ready; TxManager on/off; block requested or not; application header handler installed or not) to a real BitcoinNode over loopback TCP: random bytes, valid frames, corrupt checksum, altered length (+1,-1,x2,0,2^31-1,2^32-2), truncation, oversize declared length for every known command with little data, extended headers with lengths 0..2^64-1, headers/inv/addr with counts up to 2^64-1, header bits/timestamp extremes, hostile version/protoconf, wrong magic, non-UTF8 command, hostile tx/block encodings; every case is journalled to disk BEFORE it runs so that a dead process names its killer; oracle: the test process stays alive (a panic in any node goroutine kills it => violation with the journalled bytes as replay), Run returns within 10 s after the peer closes WITHOUT an interrupt, runtime.MemStats.Sys grows by <= 64 MiB + 4 x bytes actually sent (a length field may not size a reservation), the header repository (difficulty checks on: nothing generated is acceptable) is unchanged, and a well-behaved bystander session sharing the repositories verifies and gets its pong; recorded known findings are excluded by construction and counted; non-trivial = stage S2/S3 with an oversize/extended/hostile-count chunk; distinct = (stage, flags, chunk class list)"
 
 func journalPath() string {
 	dir := os.Getenv("VERIF_EVID_DIR")
@@ -400,7 +405,7 @@ func journalPath() string {
 func checkHostile(t failer, c hostileCase, classes []string) {
 	res := runHostile(t, c)
 	sent := uint64(c.bytes())
-	desc := fmt.Sprintf("stage S%d txManager=%v blockRequested=%v chunks=%v (%d bytes)", c.Stage, c.TxManager, c.RequestBlock, classes, sent)
+	desc := fmt.Sprintf("stage S%d txManager=%v blockRequested=%v headerHandler=%v chunks=%v (%d bytes)", c.Stage, c.TxManager, c.RequestBlock, c.HeaderHandler, classes, sent)
 	if !res.runReturned {
 		t.Fatalf("Run did not return within %s after the peer closed: %s", bound, desc)
 	}
@@ -427,7 +432,7 @@ func propC15(col *evid.Collector, allowKnown bool) func(t *rapid.T) {
 		c, classes := genHostile(t, allowKnown)
 		os.WriteFile(journalPath(), c.encode(), 0o644)
 		checkHostile(t, c, classes)
-		k.Op("S%d txm=%v req=%v %v", c.Stage, c.TxManager, c.RequestBlock, classes)
+		k.Op("S%d txm=%v req=%v hh=%v %v", c.Stage, c.TxManager, c.RequestBlock, c.HeaderHandler, classes)
 		for _, cl := range classes {
 			k.Class(strings.SplitN(cl, ":", 2)[0])
 			if strings.Contains(cl, "(") {
